@@ -8,7 +8,7 @@ from translate import ufunc_deriv as T
 
 PID = 'C06'
 SHARD_SIZE = 150
-RULE = ('random well-typed expression trees (depth 0..4 quick, 0..6 thorough) over the 14 modelled classes '
+RULE = ('random well-typed expression trees (depth 0..4 quick, 0..6 thorough) over the 13 modelled classes '
         '(OperatorSum/VectorSum/Comp/PointwiseProduct/Left-,RightScalarMult/Left-,RightVectorMult/FunctionalLeftVectorMult, '
         'Broadcast/Reduction/Diagonal/ProductSpaceOperator with holes), built from the constructors and from the '
         'arithmetic overloads, with leaves Scaling/Identity/Multiply/Matrix/InnerProduct/Zero/Constant/Power/ufunc '
